@@ -371,6 +371,52 @@ var c08BindTemplates = []string{
 	"struct PAIR(int a, string b,)\nstage T(in int x, out int y, out PAIR q, src py \"t\",)\npipeline P(in int x, in PAIR p, out int y, out PAIR q, out int x,)\n{\n    call T(\n        x = self.x,\n    )\n    return (\n        %s\n    )\n}\n",
 }
 
+// scope shapes the grammar has separate alternatives for (a pipeline WITHOUT call statements, with
+// and without retain; only out parameters, so that no unused-input error hides what follows)
+func init() {
+	c08BindTemplates = append(c08BindTemplates,
+		"struct PAIR(int a, string b,)\npipeline P(in int x, in int[] xs, in PAIR p, in PAIR[] ps, out int y, out PAIR q, out int x,)\n{\n    return (\n        %s\n    )\n}\n",
+		"struct PAIR(int a, string b,)\npipeline P(out int y, out PAIR q, out int x, out PAIR p,)\n{\n    return (\n        %s\n    )\n}\n",
+		"struct PAIR(int a, string b,)\nstage T(in int x, out int y, out PAIR q, src py \"t\",)\npipeline P(out int y, out PAIR q, out int x, out PAIR p,)\n{\n    return (\n        %s\n    )\n\n    retain (\n        T.q,\n    )\n}\n",
+		"struct PAIR(int a, string b,)\nstage T(in int x, out int y, out PAIR q, src py \"t\",)\npipeline Q(out int y, out PAIR q, out int x, out PAIR p,)\n{\n    return (\n        %s\n    )\n}\npipeline P(out int y,)\n{\n    call Q()\n    return (\n        y = Q.y,\n    )\n}\ncall P()\n")
+}
+
+// the reference list of a retain statement in every form, resolvable or not
+var c08RetainForms = []string{"", "T.y,", "T.q,", "T.q.a,", "T,", "NOPE.z,", "NOPE,", "self.x,", "self,", "T.y, T.y,", "T.nope,", "P.y,", "y,", "x,"}
+
+var c08RetainTemplates = []string{
+	// pipeline with a call / without any call / stage-level retain of parameters
+	"struct PAIR(int a, string b,)\nstage T(in int x, out int y, out PAIR q, src py \"t\",)\npipeline P(in int x, out int y,)\n{\n    call T(\n        x = self.x,\n    )\n    return (\n        y = T.y,\n    )\n\n    retain (\n        %s\n    )\n}\n",
+	"struct PAIR(int a, string b,)\nstage T(in int x, out int y, out PAIR q, src py \"t\",)\npipeline P(out int y,)\n{\n    return (\n        y = 1,\n    )\n\n    retain (\n        %s\n    )\n}\n",
+	"struct PAIR(int a, string b,)\nstage T(in int x, out int y, out PAIR q, src py \"t\",)\npipeline P(in int x, out int y,)\n{\n    return (\n        y = self.x,\n    )\n\n    retain (\n        %s\n    )\n}\ncall P(\n    x = 1,\n)\n",
+	"filetype txt;\nstage T(in int x, out int y, out txt q, src py \"t\",) retain (\n    %s\n)\n",
+}
+
+// names of every length class: 1, around the column caps of the formatter (25, 35, 40), powers of
+// two, long.  The length of a name is independent of everything else about it; layout code pads
+// columns by differences of lengths.
+var c08NameLengths = []int{1, 2, 7, 8, 15, 16, 17, 23, 24, 25, 26, 31, 32, 33, 34, 35, 36, 39, 40, 41, 47, 48, 63, 64, 65, 80, 127, 128, 200}
+
+var c08LongNameTemplates = []string{
+	"filetype %s;\nstage S(in %s a, out %s b, src py \"s\",)\n",
+	"struct %s(int a, string b,)\nstage S(in %s a, in map<%s> c, out %s[] b, out map<%s[]>[] d, src py \"s\",) split (in %s e, out %s f,)\npipeline P(in %s a, out %s b,)\n{\n    return (\n        b = self.a,\n    )\n}\n",
+	"stage %s(in int a, out int b, src py \"s\",)\npipeline P%s(in int a, out int b,)\n{\n    call %s(\n        a = self.a,\n    )\n    return (\n        b = %s.b,\n    )\n}\ncall P%s(\n    a = 1,\n)\n",
+	"struct T(int %s, string b \"%s\" \"%s\",)\nstage S(in int %s \"%s\", in T t, out int b%s \"%s\" \"%s\", src py \"%s\",) using (mem_gb = 1,) retain (b%s,)\n",
+	"call S(\n    %s = {\"%s\": 1, %s: [%s.%s]},\n)\n",
+}
+
+func c08NameOfLen(n int) string {
+	const al = "ABCDEFGHIJKLMNOPQRSTUVWXYZ_0123456789"
+	b := make([]byte, n)
+	for i := range b {
+		b[i] = al[(i*7+n)%len(al)]
+	}
+	if b[0] == '_' || (b[0] >= '0' && b[0] <= '9') {
+		b[0] = 'N'
+	}
+	return string(b)
+}
+
 var c08Keywords = []string{"as", "bool", "call", "comp", "default", "disabled", "exec", "false", "filetype", "float",
 	"in", "int", "local", "map", "mem_gb", "memgb", "null", "out", "path", "pipeline", "preflight", "py", "retain",
 	"return", "self", "special", "split", "src", "stage", "strict", "string", "struct", "threads", "true", "using",
@@ -423,7 +469,12 @@ func c08Mutate(c *Ctx, seed []byte, others []c08Seed) ([]byte, string) {
 	for i := 0; i < k; i++ {
 		ok := false
 		name := ""
-		switch c.Rng.Intn(12) {
+		switch c.Rng.Intn(13) {
+		case 12:
+			name = "name-length"
+			src, ok = c08ReplaceMatch(c, src, c08ReId, func() string {
+				return c08NameOfLen(c08NameLengths[c.Rng.Intn(len(c08NameLengths))])
+			})
 		case 11:
 			name = "bind-form"
 			src, ok = c08ReplaceMatch(c, src, c08ReBind, func() string { return c08BindForms[c.Rng.Intn(len(c08BindForms))] })
@@ -777,6 +828,9 @@ func runC08(c *Ctx) {
 		if only == "lex" || only == "lex:actions" {
 			c08Actions(c)
 		}
+		if only == "lex" || only == "lex:lrsem" {
+			c08LrSem(c)
+		}
 		if only == "lex" || only == "lex:extra" {
 			c08LexExtra(c)
 		}
@@ -825,6 +879,8 @@ func runC08(c *Ctx) {
 	c08Actions(c)
 	// ---- 3c. identifier recogniser; white-space set ----
 	c08LexExtra(c)
+	// ---- 3d. goyacc model with semantic values vs x-c09's reader (value expressions) ----
+	c08LrSem(c)
 	// ---- 3d. the goyacc driver: debug trace of the real parser vs the Lean model of the LR loop ----
 	c08ParserTrace(c)
 	tTok := time.Since(t0)
@@ -1043,6 +1099,29 @@ func runC08API(c *Ctx) {
 			src := strings.ReplaceAll(tmpl, "%s", b)
 			r.hist("catalogue-bind-form")
 			checkInput([]byte(src), filepath.Join(c.Scratch, "b.mro"), nil, "bind-form-catalogue", true)
+		}
+	}
+	// every retain-list form in a pipeline with a call, without any call, and in a stage
+	for _, b := range c08RetainForms {
+		for _, tmpl := range c08RetainTemplates {
+			src := strings.ReplaceAll(tmpl, "%s", b)
+			r.hist("catalogue-retain-form")
+			checkInput([]byte(src), filepath.Join(c.Scratch, "rt.mro"), nil, "retain-form-catalogue", true)
+		}
+	}
+	// names of every length class in every name position; array types of every number of dimensions
+	for _, n := range c08NameLengths {
+		nm := c08NameOfLen(n)
+		for _, tmpl := range c08LongNameTemplates {
+			src := strings.ReplaceAll(tmpl, "%s", nm)
+			r.hist("catalogue-name-length")
+			checkInput([]byte(src), filepath.Join(c.Scratch, "ln.mro"), nil, "name-length-catalogue", true)
+		}
+		if n <= 128 {
+			dims := strings.Repeat("[]", n)
+			src := "stage S(in int" + dims + " a, in map<int" + dims + "> m, out string" + dims + " b, src py \"s\",)\n"
+			r.hist("catalogue-name-length")
+			checkInput([]byte(src), filepath.Join(c.Scratch, "ln.mro"), nil, "name-length-catalogue", true)
 		}
 	}
 	// truncation at every byte of the small seeds
